@@ -314,7 +314,73 @@ def translate(repo, known_ops):
         raise Refuse("can_emit has no arm for %s" % missing)
     return lines
 
-def render(lines):
+# ---- the helper predicates the guards are written in (src/generator/utils.rs): recognised by shape
+VARIANT_KIND = {"Int": ".int", "Float": ".float", "Bool": ".bool", "None": ".pnone", "Bytes": ".bytes", "String": ".string",
+                "ByteArray": ".byteArray", "List": ".list", "Tuple": ".tuple", "Dict": ".dict", "Set": ".set", "FrozenSet": ".frozenSet",
+                "Mark": ".mark", "Global": ".glob", "Instance": ".obj", "Callable": ".callable", "Extension": ".extension", "Any": ".any"}
+PAT = r"((?:StackObject::\w+(?:\(_\)|\{\.\.\})?\|?)+)"
+SHAPES = [
+    # fn is_X_at(depth): the slot `depth` below the top has one of the listed variants
+    ("at", r"ifletSome\((\w+)\)=self\.peek_at\(depth\)\{matches!\(\*\1\.borrow\(\)," + PAT + r",?\)\}else\{false\}"),
+    ("at", r"self\.peek_at\(depth\)\.is_some_and\(\|(\w+)\|matches!\(\*\1\.borrow\(\)," + PAT + r",?\)\)"),
+    # fn is_X_at_mark(): the slot directly below the TOPMOST mark (scan from the top)
+    ("belowTopMark", r"for\((\w+),(\w+)\)inself\.state\.stack\.inner\.iter\(\)\.enumerate\(\)\.rev\(\)\{ifmatches!\(\*\2\.borrow\(\),StackObject::Mark\)\{"
+                     r"if\1>0\{ifletSome\((\w+)\)=self\.state\.stack\.inner\.get\(\1-1\)\{returnmatches!\(\*\3\.borrow\(\)," + PAT + r",?\);\}\}returnfalse;\}\}false"),
+    # fn is_callable_above_mark(): the slot directly above the TOPMOST mark
+    ("aboveTopMark", r"for\((\w+),(\w+)\)inself\.state\.stack\.inner\.iter\(\)\.enumerate\(\)\.rev\(\)\{ifmatches!\(\*\2\.borrow\(\),StackObject::Mark\)\{"
+                     r"let(\w+)=\1\+1;if\3<self\.state\.stack\.inner\.len\(\)\{ifletSome\((\w+)\)=self\.state\.stack\.inner\.get\(\3\)\{returnmatches!\(\*\4\.borrow\(\)," + PAT + r",?\);\}\}returnfalse;\}\}false"),
+    # fn count_items_to_mark(): number of slots above the TOPMOST mark
+    ("countToTopMark", r"for\((\w+),(\w+)\)inself\.state\.stack\.inner\.iter\(\)\.rev\(\)\.enumerate\(\)\{ifmatches!\(\*\2\.borrow\(\),StackObject::Mark\)\{returnSome\(\1\);\}\}None"),
+    # fn has_mark(): some slot is a mark
+    ("anyMark", r"self\.state\.stack\.inner\.iter\(\)\.any\(\|(\w+)\|matches!\(\*\1\.borrow\(\),StackObject::Mark\)\)"),
+    # fn peek_at(depth): the slot `depth` below the top
+    ("peekAt", r"let(\w+)=self\.state\.stack\.len\(\);ifdepth<\1\{self\.state\.stack\.inner\.get\(\1-1-depth\)\}else\{None\}"),
+]
+HELPERS = ["peek_at", "has_mark", "is_list_at", "is_dict_at", "is_tuple_at", "is_string_at", "is_instance_at", "is_callable_at",
+           "is_list_at_mark", "is_dict_at_mark", "is_set_at_mark", "is_callable_above_mark", "count_items_to_mark"]
+
+def fn_body(src, name):
+    m = re.search(r"fn\s+%s\s*\([^)]*\)\s*(?:->\s*[^{]+)?\{" % name, src)
+    if not m:
+        raise Refuse("helper %s not found in utils.rs" % name)
+    depth = 0
+    for k in range(m.end() - 1, len(src)):
+        if src[k] == "{":
+            depth += 1
+        elif src[k] == "}":
+            depth -= 1
+            if depth == 0:
+                return re.sub(r"\s+", "", src[m.end():k])
+    raise Refuse("unbalanced body of %s" % name)
+
+def helpers(repo):
+    """[(helper, shape, [kinds])] — each helper predicate of utils.rs must have one of the known shapes"""
+    src = strip_comments(open(os.path.join(repo, "src/generator/utils.rs")).read())
+    out = []
+    for h in HELPERS:
+        body = fn_body(src, h)
+        for shape, rx in SHAPES:
+            m = re.fullmatch(rx, body)
+            if m:
+                kinds = []
+                if "StackObject::" in m.group(m.lastindex or 0) if m.lastindex else False:
+                    for v in re.findall(r"StackObject::(\w+)", m.group(m.lastindex)):
+                        if v not in VARIANT_KIND:
+                            raise Refuse("unknown variant %s in %s" % (v, h))
+                        kinds.append(VARIANT_KIND[v])
+                out.append((h, shape, kinds))
+                break
+        else:
+            raise Refuse("helper %s has an unrecognised shape: %s" % (h, body[:120]))
+    return out
+
+def render(lines, hs=None):
+    if hs is not None:
+        extra = ("\n/-- the helper predicates of `src/generator/utils.rs` the guards are written in: (name, shape, variants matched),\n"
+                 "each recognised by its exact shape (scan from the top for the TOPMOST mark, index arithmetic included) -/\n"
+                 "def helpers : List (String × String × List Kind) :=\n  [" +
+                 ",\n   ".join('("%s", "%s", [%s])' % (h, sh, ", ".join(ks)) for h, sh, ks in hs) + "]\n")
+        return render(lines).replace("\nend Gen\nend PFV\n", extra + "\nend Gen\nend PFV\n")
     return ("/-\nGENERATED by tools/translate.py (tools/guards.py) from /repo's src/generator/validation.rs on every run — do not edit.\n"
             "`Generator::can_emit`, arm by arm, in the vocabulary of `Sim.lean`.\n-/\nimport PFV.Sim\nnamespace PFV\nnamespace Gen\n\n"
             "def canEmitSrc (c : Cfg) (s : State) (op : Op) : Bool :=\n  let st := s.stack\n  match op with\n" + "\n".join(lines) + "\n\nend Gen\nend PFV\n")
@@ -322,4 +388,5 @@ def render(lines):
 if __name__ == "__main__":
     sys.path.insert(0, os.path.dirname(os.path.abspath(__file__)))
     import translate as T
-    print(render(translate(sys.argv[1] if len(sys.argv) > 1 else "/repo", T.KNOWN_OPS)))
+    repo = sys.argv[1] if len(sys.argv) > 1 else "/repo"
+    print(render(translate(repo, T.KNOWN_OPS), helpers(repo)))
